@@ -2942,6 +2942,12 @@ func (p *Posix) PutObject(ctx context.Context, po s3response.PutObjectInput) (s3
 		attrs, err := p.meta.ListAttributes(*po.Bucket, *po.Key)
 		if err == nil {
 			for _, attr := range attrs {
+				if attr == etagkey {
+					// the etag, the same for every directory object, is
+					// what makes the directory an object: it stays in
+					// place while the other attributes are replaced
+					continue
+				}
 				err := p.meta.DeleteAttribute(*po.Bucket, *po.Key, attr)
 				if err != nil && !errors.Is(err, meta.ErrNoSuchKey) {
 					return s3response.PutObjectOutput{}, fmt.Errorf("delete attr %q: %w", attr, err)
